@@ -669,6 +669,7 @@ func main() {
 	if thorough {
 		latencyBound = 500 * time.Millisecond
 	}
+	ctxObservationStream(f) // ctxobs.go: the context becomes done at the n-th observation the library makes of it (also in replay mode)
 	if f.Replay != "" {
 		replay(f.Replay)
 		lib.RunProbes(res, "C07", f.Known)
@@ -690,6 +691,7 @@ func main() {
 		g := lib.NewGen(r, genProfile(r))
 		checkProgram(program{Name: fmt.Sprintf("gen-%d", i), Src: g.Program()}, r, maxEx, samples)
 	}
+	runAbortStream(f, rng.Fork()) // runabort.go: runAbort of the whole-VM model against the real VM aborted at dispatch k
 	slowNativeCall()
 	lib.RunProbes(res, "C07", f.Known)
 	res.Extra = map[string]interface{}{"latency_bound_ms": latencyBound.Milliseconds(), "max_latency_us_observed": maxLatency.Microseconds(), "exhaustive_k_up_to": maxEx, "tainted_by_hang": tainted}
@@ -711,6 +713,7 @@ func replay(path string) {
 			}
 		}
 		checkProgram(program{Name: fmt.Sprintf("replay-%d", i), Src: s, Infinite: inf}, rng, 5000, 40)
+		raProgram(program{Name: fmt.Sprintf("replay-%d", i), Src: s, Infinite: inf}, rng, raReplayBudgets(b, s), 5000, 40000, 40)
 	}
 }
 
